@@ -144,6 +144,11 @@ func c20Run(h c20Hist, r *vlib.Rng) (sig, what string, nlines int, inconclusive 
 	mkLine := func() string {
 		n++
 		s := "L" + strconv.Itoa(n)
+		// the terminating newline is all that is ever removed: whatever else a
+		// line ends in (or holds) is part of it
+		if r.Chance(25) {
+			s += vlib.PickOne(r, []string{"\r", "\r\r", " ", "\t", " \r", "\x00", "\rmid", "  two  ", "\v\f", "\xc3", "é\r"})
+		}
 		if h.LongLines && r.Chance(30) {
 			s += strings.Repeat("x", vlib.PickOne(r, []int{4090, 4096, 4097, 8192, 12288}))
 		}
